@@ -3,7 +3,7 @@ import Ogen.JsonEqualDriver
 /-! Line protocol for the C04 codec model (trusted glue): `jcodec <type> <document>` ↦ `none` when the model's
     decoder refuses the document, else the model's re-encoding of the decoded value.
     `jaccept <type> <document>` ↦ `accept` / `refuse`: the model's verdict decode-then-validate (C03).
-    Type tokens (prefix form): `I` `S` `B`, `A<nul>` item, `O<k>` followed by k fields `F<req><nul><hex name>` type;
+    Type tokens (prefix form): `I` `S` `B`, `A<nul>` item, `O<k>` (or `O<k>:1` for a closed object) followed by k fields `F<req><nul><hex name>` type;
     keywords ride on the token after colons, `-` for none: `I:min:max:exMin:exMax:multipleOf`, `S:min:max`,
     `A<nul>:min:max`.
     Document tokens as for C18 (`n t f s<hex> #<hex of the number text> [k {k k<hex>`), numbers are integers. -/
@@ -34,7 +34,7 @@ partial def readTy (toks : List String) : Ty × List String :=
       let (it, r) := readTy rest
       (.arr (lenC parts) (head == "A1") it, r)
     else
-      let k := (t.drop 1).toString.toNat!
+      let k := (head.drop 1).toString.toNat!
       let rec fields (k : Nat) (toks : List String) (acc : List Field) : List Field × List String :=
         match k with
         | 0 => (acc.reverse, toks)
@@ -48,7 +48,7 @@ partial def readTy (toks : List String) : Ty × List String :=
             fields k r' ((unhexStr (String.ofList (cs.drop 3)), req, nul, ft) :: acc)
           | [] => (acc.reverse, [])
       let (fs, r) := fields k rest []
-      (.obj fs, r)
+      (.obj (parts.getD 1 "0" == "1") fs, r)
 
 def parseInt (s : String) : Int :=
   if s.startsWith "-" then -((s.drop 1).toString.toNat!) else s.toNat!
@@ -61,7 +61,10 @@ partial def readJI (toks : List String) : Json × List String :=
     else if t == "t" then (.bool true, rest)
     else if t == "f" then (.bool false, rest)
     else if t.startsWith "s" then (.str (unhexStr (t.drop 1).toString), rest)
-    else if t.startsWith "#" then (.num (parseInt (unhexStr (t.drop 1).toString)), rest)
+    else if t.startsWith "#" then
+      let raw := unhexStr (t.drop 1).toString
+      if raw.any (fun c => c == '.' || c == 'e' || c == 'E') then (.num .frac, rest)
+      else (.num (.int (parseInt raw)), rest)
     else if t.startsWith "[" then
       let k := (t.drop 1).toString.toNat!
       let rec items (k : Nat) (toks : List String) (acc : List Json) : List Json × List String :=
@@ -93,7 +96,8 @@ partial def showJ : Json → List String
   | .bool true => ["t"]
   | .bool false => ["f"]
   | .str s => ["s" ++ hexStr s]
-  | .num n => ["#" ++ hexStr (toString n)]
+  | .num (.int n) => ["#" ++ hexStr (toString n)]
+  | .num .frac => ["#" ++ hexStr "frac"]
   | .arr xs => s!"[{xs.length}" :: xs.flatMap showJ
   | .obj ms => s!"\{{ms.length}" :: ms.flatMap fun (k, v) => ("k" ++ hexStr k) :: showJ v
 
